@@ -60,6 +60,8 @@ class Prop:
             "runs_with_forged_datagrams": sum(1 for c in cases if c["cfg"].get("forged_one_in")),
             "forged_datagrams_injected": sum(c["info"].get("forged", 0) for c in cases),
             "runs_with_isolated_receive_errors": sum(1 for c in cases if c["cfg"].get("recv_errs")),
+            "runs_with_batches_staged_before_the_session": sum(1 for c in cases if c["cfg"].get("staged_before")),
+            "runs_with_early_data_as_responder": sum(1 for c in cases if c["cfg"].get("resp_early")),
             "runs_with_several_flushers": sum(1 for c in cases if c["cfg"].get("flushers")),
             "runs_with_uapi_reapply_flushers_only": sum(1 for c in cases if c["cfg"].get("flusher_kind") == "uapi"),
             "runs_with_down_up_during_flood": sum(1 for c in cases if c["cfg"].get("down_up_cycles")),
